@@ -219,8 +219,33 @@ def r2_7(ctx):
         ctx.instance(construct(f, f"loop-path-{i}"))
         if "perform" in names and "record-workflow" in names and names.index("perform") > names.index("record-workflow"):
             ctx.violation(construct(f, "record-before-perform"), f.loc(loop), "tasks are recorded before they are performed: every logged remaining work lags one step behind")
+        if names.count("perform") > 1:
+            ctx.violation(construct(f, "perform-twice"), f.loc(loop), f"tasks are performed {names.count('perform')} times in one step: remaining work falls by a multiple of the contribution")
+        if working_of(p) and names.count("perform") != 1:
+            ctx.violation(construct(f, "perform-missing"), f.loc(loop), "a working step does not perform the tasks")
         if "finish-check" not in names or names.index("finish-check") != 0:
             ctx.violation(construct(f, "finish-check-first"), f.loc(loop), "the finish check is not the first action of a step: a task whose remaining work reached zero is not FINISHED at the next step")
+    ctx.end()
+
+
+def r2_8(ctx):
+    ctx.begin("R2.8", "workflow.perform performs every task exactly once", floor=1)
+    from ..fanout import FanOut
+    g = ctx.repo.method(WORKFLOW, "perform")
+    I = mk_interp(ctx)
+    outs = I.run_function(g, bind={"only_auto_task": Const(False), "__defaults__": True})
+
+    def m(ev):
+        if isinstance(ev, Call) and f"{TASK}.perform" in ev.callees:
+            return "perform"
+        return None
+    for st, ex in outs:
+        fo = FanOut(ctx, m)
+        c = fo.counts(st.trace)
+        ctx.instance(construct(g, "traversal"), sample={"per_task_calls": sorted(c.get("perform", {0}))})
+        if c.get("perform", {0}) != {1}:
+            ctx.violation(construct(g, "perform-traversal"), g.loc(), f"workflow.perform() calls task.perform {sorted(c.get('perform', {0}))} time(s) per task (expected exactly once for every task)")
+    # each progress helper is consulted once per resource: the time argument is passed through
     ctx.end()
 
 
@@ -232,3 +257,4 @@ def run(ctx):
     r2_5(ctx)
     r2_6(ctx)
     r2_7(ctx)
+    r2_8(ctx)
